@@ -141,8 +141,11 @@ func PlanSession(s Src, o SessionOpts) *SessionPlan {
 			case chance(s, "w.err", 1, 6):
 				call.Beh.Kind = "error"
 			case o.Misbehave && chance(s, "w.mis", 1, 6):
-				call.Beh.Kind = []string{"undeclared", "baddata", "panic"}[s.Choose("w.miskind", 3)]
+				kinds := append([]string{"undeclared", "baddata", "panic"}, emptyBadKinds...)
+				call.Beh.Kind = kinds[s.Choose("w.miskind", len(kinds))]
 				p.Features["misbehave"] = true
+			case chance(s, "w.empty", 1, 8):
+				call.Beh.Kind = "empty"
 			}
 			if o.SlowSteps && chance(s, "w.slow", 1, 4) {
 				call.Beh.SleepMs = 1 + s.Choose("w.slowms", 5000)
@@ -619,8 +622,11 @@ func JudgeSession(plan *SessionPlan, obs *SessionObs, out rt.Outcome) []Violatio
 					}
 				}
 			}
-			if dupRun {
-				continue // caller misuse: not part of the statement
+			if dupRun && got.Res.Error != nil && strings.Contains(got.Res.Error.Error(), "duplicate run ID") {
+				// a call that reuses the run ID of a call still in flight is refused by the client (caller
+				// misuse); a refused call must not disturb the other one, and a call that is not refused
+				// (the other one had finished) is judged like any other
+				continue
 			}
 			// the transport necessarily normalises value types; the reference sees the same normalised input
 			nin, nerr := Norm(call.Input)
